@@ -115,7 +115,12 @@ def _range_agg(b, op):
     if l is None:
         return None
     sd = b.single_def(l)
-    if sd is None or hasattr(sd[2], "callee"):
+    if sd is None:
+        return None
+    if hasattr(sd[2], "callee"):
+        # `a..=b` is built by a call
+        if sd[2].callee.endswith("core::ops::range::RangeInclusive::<Idx>::new") and len(sd[2].args) == 2:
+            return "RangeInclusive", list(sd[2].args)
         return None
     rv = sd[2]
     if rv[0] == "use":
@@ -148,6 +153,11 @@ def _slice_call(b, t, iv, st):
             return "start <= len on this path"
         if kind == "RangeFull":
             return "full range"
+        # inclusive ranges: slice[a..=b] needs a <= b + 1 and b < len (b == usize::MAX panics as well, excluded by b < len)
+        if kind == "RangeInclusive" and len(ops) == 2 and iv.le(st, ops[0], ops[1]) and iv.lt_len(st, ops[1], lt, lr):
+            return "start <= end < len on this path"
+        if kind == "RangeToInclusive" and len(ops) == 1 and iv.lt_len(st, ops[0], lt, lr):
+            return "end < len on this path"
         return None
     if name in ("chunks", "chunks_exact", "windows", "rchunks", "chunks_mut", "chunks_exact_mut") and len(t.args) == 2:
         r = iv.rng(st, t.args[1])
